@@ -347,6 +347,7 @@ impl Evidence {
             "not_simulated": ["network functions (http_request, dns_lookup, reverse_dns)"]
         }));
         cov.insert("vrl_tree".into(), vrl_tree_id().into());
+        cov.insert("sync_instrumentation".into(), (!verif_dir().join("run/.uninstrumented").exists()).into());
         for (k, v) in &self.extra {
             cov.insert(k.clone(), v.clone());
         }
